@@ -24,11 +24,12 @@ var c11Sched func(c *core.Ctx, nontriv *atomic.Int64) bool
 
 func init() {
 	core.Register(core.Check{ID: "C11", Level: "exploration", Run: func(c *core.Ctx) {
+		waitArch := background(func() { arch386Pass(c, "C11") })
 		runC11(c)
 		standalonePass(c, "C11", "standalone-powv1")
 		historyPass(c, "C11")
 		reentrancyPass(c, "C11")
-		arch386Pass(c, "C11")
+		waitArch()
 	}})
 }
 
